@@ -118,6 +118,18 @@ class ValueOps:
                 self.materialise(sv)
             return "(VLst %s)" % sv.term
         if k == 'dict':
+            if sv.owned:
+                st = self.st
+                r = self.new_ref()
+                dom, val = self.dict_heaps()
+                st.ddom = mk_store(dom, r, "((as const (Array Val Bool)) false)")
+                st.bump('DICT')
+                items = sv.extra['items']
+                sv.owned = False
+                sv.term = r
+                for kk, vv in items:
+                    self.dict_write(sv, kk, vv)
+                sv.extra = None
             if sv.term is None:
                 raise Unsupported('boxing a constant dict')
             return "(VDct %s)" % sv.term
@@ -186,7 +198,9 @@ class ValueOps:
             sub = frozenset(a for a in ty if atom_kind(a) == 'list')
             sv = SV('list', u, sub)
             if assume:
-                st.assume(mk_le('0', "(len %s)" % mk_select(self.seqheap(), u)), 'wf')
+                q = mk_select(self.seqheap(), u)
+                st.assume(mk_le('0', "(len %s)" % q), 'wf')
+                self.assume_elem_types(q, self.elem_ty(sv))
             return sv
         if k == 'tuple':
             sub = frozenset(a for a in ty if atom_kind(a) == 'tuple')
@@ -202,6 +216,20 @@ class ValueOps:
             sub = frozenset(a for a in ty if atom_kind(a) == 'dict')
             return SV('dict', u, sub)
         raise Unsupported('unbox ' + k)
+
+    def assume_elem_types(self, q, ety):
+        """quantified typing fact for the elements of a typed sequence (simple element kinds only)"""
+        ks = {atom_kind(a) for a in ety}
+        if 'any' in ks or not ks or not ks <= {'str', 'int', 'bool', 'none', 'ref'}:
+            return
+        e = "(at %s j)" % q
+        facts = [mk_or(*[is_tag(k, e) for k in sorted(ks)])]
+        if ks == {'ref'}:
+            facts.append(self.cls_in("(vr %s)" % e, self.ref_classes(ety)))
+        if ks == {'str'} and 'nestr' in ety and 'str' not in ety:
+            facts.append(mk_not(mk_eq("(vs %s)" % e, '""')))
+        self.st.assume("(forall ((j Int)) (! (=> (and (<= 0 j) (< j (len %s))) %s) :pattern ((at %s j))))"
+                       % (q, mk_and(*facts), q), 'wf')
 
     def narrow(self, sv, want=None):
         """make the kind of a 'val' definite by forking over its possible tags"""
@@ -229,7 +257,7 @@ class ValueOps:
         """drop the tags that the path condition already excludes / keep the one it asserts (syntactic)"""
         if len(kinds) <= 1:
             return kinds
-        pcs = {t for t, _ in self.st.pc}
+        pcs = {t for t, _ in self.st.pc} | set(getattr(self, 'guards', []))
         for k in kinds:
             if is_tag(k, term) in pcs:
                 return [k]
